@@ -565,7 +565,8 @@ def rule_py_call_signature(rep, floor=900):
 def rule_py_highlevel_returns(rep, floor=40):
     r = rep.rule("FORWARD.py-highlevel", "every function of src/awkward/operations that takes `highlevel` decides the kind of its result with it on every path: each return either goes through ak._util.maybe_wrap / maybe_wrap_like, "
                  "forwards highlevel= to another operation, or sits under an explicit test of highlevel - a path that returns a bare layout ignores both highlevel and behavior; "
-                 "(b) the value handed to maybe_wrap is a layout: it is never assigned from another high-level operation called without highlevel=False", floor=floor)
+                 "(b) the value handed to maybe_wrap is a layout: it is never assigned from another high-level operation called without highlevel=False; "
+                 "(c) a helper nested in such a function never returns the result of a high-level operation called without highlevel=False", floor=floor)
     ops = {}
     for rel in [x for x in pf.all_modules() if x.startswith("operations/")]:
         for fd in pf.module(rel).tree.body:
@@ -632,6 +633,19 @@ def rule_py_highlevel_returns(rep, floor=40):
                     nm = opcall(v)
                     r.check(nm is None, "%s:%s#wrapped%d" % (rel, fd.name, k), m.where(v), "%s in %s hands the result of `%s` to maybe_wrap: %s is called without highlevel=False, so with highlevel=False the caller still receives an ak.Array" % (
                         fd.name, rel, ast.unparse(v)[:60], nm), detail="wrapped value is a layout")
+            # (c) helpers nested in the operation hand back layouts
+            k = 0
+            for inner in ast.walk(fd):
+                if isinstance(inner, ast.FunctionDef) and inner is not fd:
+                    for r_ in ast.walk(inner):
+                        if isinstance(r_, ast.Return) and isinstance(r_.value, ast.Call):
+                            d_ = pf.dotted(r_.value.func) if isinstance(r_.value.func, (ast.Attribute, ast.Name)) else None
+                            if not d_ or d_.split(".")[-1] not in ops:
+                                continue
+                            k += 1
+                            nm = opcall(r_.value)
+                            r.check(nm is None, "%s:%s.%s#helper-return%d" % (rel, fd.name, inner.name, k), m.where(r_), "%s (nested in %s, %s) returns `%s`: %s is called without highlevel=False, so this path yields an ak.Array where its siblings yield layouts, and highlevel/behavior of %s are ignored" % (
+                                inner.name, fd.name, rel, ast.unparse(r_.value)[:60], nm, fd.name), detail="helper returns a layout")
     return r.done()
 
 
@@ -684,7 +698,8 @@ def rule_py_call_shape(rep, floor=1500):
     r = rep.rule("SHAPE.py-call", "(a) every call of a fixed-arity builtin (hash, len, isinstance, getattr, ...) that the module does not rebind has an admissible number of arguments; "
                  "(b) `self.m(self, ...)` is never written for a plain method m of the enclosing class (the receiver is already bound: the call is a TypeError); "
                  "(c) a recursive function that forwards its own parameter p as p at three or more recursive calls forwards it at all of them: a constant (or the default) at one site makes the result depend on where the recursion passed; "
-                 "(d) a generator expression handed to a function of the package only reaches code that iterates it once - the callee (followed through two levels of calls, by name) neither subscripts it nor takes its len() unless it first materialises it with list()/tuple()", floor=floor)
+                 "(d) a generator expression handed to a function of the package only reaches code that iterates it once - the callee (followed through two levels of calls, by name) neither subscripts it nor takes its len() unless it first materialises it with list()/tuple(); "
+                 "(e) a callable parameter (form_key, key_format, ...) that a function calls with keywords at several sites is given the same keyword set at all of them", floor=floor)
     rtable = load_table("py_recursion_exceptions.json")
     for rel in [x for x in pf.all_modules() if "generated_parser" not in x]:
         m = pf.module(rel)
@@ -745,14 +760,16 @@ def rule_py_call_shape(rep, floor=1500):
                 if len(fw) < 3:
                     continue
                 key = "%s:%s(%s)" % (rel, fd.name, p)
-                if key in rtable and other:
-                    r.excepted(key, rtable[key])
-                    r.ok(key)
-                    continue
                 if not other:
                     r.ok(key, "%d recursive calls forward %s" % (len(fw), p))
                 for c, v in other:
-                    r.fail(key, m.where(c), "%s in %s forwards its parameter %s at %d recursive calls but passes %s at `%s`" % (
+                    site = re.sub(r"\s+", "", ast.unparse(c))
+                    ck = "%s@%s" % (key, site)
+                    if key in rtable and site in rtable[key]["sites"]:
+                        r.excepted(ck, rtable[key]["reason"])
+                        r.ok(ck)
+                        continue
+                    r.fail(ck, m.where(c), "%s in %s forwards its parameter %s at %d recursive calls but passes %s at `%s`" % (
                         fd.name, rel, p, len(fw), "the default" if v is None else ast.unparse(v), ast.unparse(c)[:60]))
     # (d) generator expressions handed to package functions
     defs = {}
@@ -820,6 +837,35 @@ def rule_py_call_shape(rep, floor=1500):
                     if i < len(ps):
                         why = why or indexed(fd2, ps[i])
                 r.check(why is None, "%s:%s(<generator>)#%d" % (rel, nm, k), m.where(c), "%s passes a generator expression to %s, but %s: a generator can be iterated once and neither sliced nor measured" % (rel, nm, why), detail="generator argument is only iterated")
+    # (e) callable parameters are called the same way everywhere in a function
+    for rel in [x for x in pf.all_modules() if "generated_parser" not in x]:
+        m = pf.module(rel)
+        for fd in m.tree.body:
+            if not isinstance(fd, ast.FunctionDef):
+                continue
+            params = set()
+            for f2 in ast.walk(fd):
+                if isinstance(f2, ast.FunctionDef):
+                    params |= {a.arg for a in f2.args.args + f2.args.kwonlyargs}
+            calls = {}
+            for c in ast.walk(fd):
+                if isinstance(c, ast.Call) and isinstance(c.func, ast.Name) and c.func.id in params and c.keywords and not any(kw.arg is None for kw in c.keywords):
+                    calls.setdefault(c.func.id, []).append(c)
+            for nm, cs in sorted(calls.items()):
+                if len(cs) < 2:
+                    continue
+                shapes = {}
+                for c in cs:
+                    shapes.setdefault((len(c.args), tuple(sorted(kw.arg for kw in c.keywords))), []).append(c)
+                major = max(shapes.values(), key=len)
+                key = "%s:%s:callback %s" % (rel, fd.name, nm)
+                if len(shapes) == 1:
+                    r.ok(key, "%d calls, one shape" % len(cs))
+                for shp, lst in shapes.items():
+                    if lst is not major:
+                        for c in lst:
+                            r.fail(key, m.where(c), "%s in %s calls its callable parameter %s as `%s` here but with keywords %s at %d other sites: a callback written to the documented signature raises TypeError on this path" % (
+                                fd.name, rel, nm, ast.unparse(c)[:60], sorted(kw.arg for kw in major[0].keywords), len(major)))
     return r.done()
 
 
@@ -915,10 +961,12 @@ def rule_py_isinstance_shadow(rep, floor=100):
                             continue
                         r.check(not dead, "%s:%s:%s#%d" % (rel, q, subj, k), m.where(c), "in %s (%s) the arm `isinstance(%s, ...)` tests %s after an earlier arm already captured %s: for these classes the arm can never be taken" % (
                             q, rel, subj, sorted({d for d, _ in dead}), sorted({e for _, e in dead})), detail="no class shadowed by an earlier arm")
-                    ie = _isinstance_exact(t)
-                    if ie:    # only an unconditional isinstance arm captures its classes for the rest of the chain
-                        for n_ in ie[1]:
-                            earlier.setdefault(ie[0], []).append((n_, t))
+                    # only an unconditional isinstance arm (or a disjunct of an `or`) captures its classes for the rest of the chain
+                    for d_ in (t.values if isinstance(t, ast.BoolOp) and isinstance(t.op, ast.Or) else [t]):
+                        ie = _isinstance_exact(d_)
+                        if ie:
+                            for n_ in ie[1]:
+                                earlier.setdefault(ie[0], []).append((n_, t))
     return r.done()
 
 
@@ -1004,4 +1052,195 @@ def rule_py_keepdims_recombine(rep, floor=3):
                     good = bool(kd) and isinstance(kd[0], ast.Constant) and kd[0].value is True
                     r.check(good, "%s:%s#%d" % (fd.name, side.id, k), m.where(b), "%s combines `%s` with the unreduced array in `%s`, but %s was computed with keepdims=%s: for axis != -1 the statistic of one group is paired with the elements of another" % (
                         fd.name, side.id, ast.unparse(b)[:50], side.id, ast.unparse(kd[0]) if kd else "<default False>"), detail="statistic keeps the reduced dimension")
+    return r.done()
+
+
+def rule_py_record_field_trim(rep, floor=4):
+    r = rep.rule("TRIM.py-record-field", "(a) wherever the Python layer takes `R.field(k)` of a layout R known to be a RecordArray (under isinstance(R, recordtypes / RecordArray)) the result is cut to the record array's own length "
+                 "(`R.field(k)[: len(R)]`): field() hands out the stored content, which may be longer than the array; (b) a division or modulo by `X.size` sits under a test of `X.size`: a RegularArray may have size 0", floor=floor)
+    table = load_table("py_recordfield_exceptions.json")
+    for rel in [x for x in pf.all_modules() if "generated_parser" not in x]:
+        m = pf.module(rel)
+        k = 0
+        for c in ast.walk(m.tree):
+            if isinstance(c, ast.Call) and isinstance(c.func, ast.Attribute) and c.func.attr == "field" and len(c.args) == 1:
+                recv = ast.unparse(c.func.value)
+                isrec = False
+                for t, inbody in pf.enclosing_tests(c):
+                    if not inbody:
+                        continue
+                    for x in ast.walk(t):
+                        ic = _isinstance_classes(x)
+                        if ic and ic[0] == recv and any(n_ in ("recordtypes", "RecordArray") for n_ in ic[1]):
+                            isrec = True
+                if not isrec:
+                    continue
+                k += 1
+                fn = getattr(_owner_func(c), 'name', '<module>')
+                key = "%s:%s:%s" % (rel, fn, recv)
+                par = getattr(c, "_parent", None)
+                trimmed = (isinstance(par, ast.Subscript) and par.value is c and isinstance(par.slice, ast.Slice) and par.slice.lower is None and par.slice.upper is not None
+                           and ast.unparse(par.slice.upper) == "len(%s)" % recv)
+                if not trimmed and key in table:
+                    r.excepted(key, table[key])
+                    r.ok(key)
+                    continue
+                r.check(trimmed, "%s#%d" % (key, k), m.where(c), "%s in %s uses `%s` untrimmed: the stored content of a RecordArray field may be longer than the array (unreachable tail becomes visible)" % (fn, rel, ast.unparse(c)), detail="[: len(%s)]" % recv)
+            if isinstance(c, ast.BinOp) and isinstance(c.op, (ast.FloorDiv, ast.Mod, ast.Div)) and isinstance(c.right, ast.Attribute) and c.right.attr == "size":
+                recv = ast.unparse(c.right)
+                k += 1
+                guarded = any(recv in ast.unparse(t) for t, _ in pf.enclosing_tests(c))
+                r.check(guarded, "%s:%s:%s#%d" % (rel, getattr(_owner_func(c), "name", "<module>"), recv, k), m.where(c), "%s in %s divides by `%s` without testing it: a RegularArray of size 0 raises ZeroDivisionError" % (getattr(_owner_func(c), "name", "<module>"), rel, recv), detail="under a test of %s" % recv)
+    return r.done()
+
+
+def rule_py_enumerate_index(rep, floor=10):
+    r = rep.rule("INDEX.py-enumerate", "in `for i, v in enumerate(xs)` a list that grows by one entry per iteration (L.append(...) in the loop body) is subscripted with the position i, never with the enumerated value v: "
+                 "L has as many entries as iterations so far, whatever the values of xs are (offsets[row_group] with row_groups=[1] is out of range)", floor=floor)
+    for rel in [x for x in pf.all_modules() if "generated_parser" not in x]:
+        m = pf.module(rel)
+        k = 0
+        for lp in ast.walk(m.tree):
+            if not (isinstance(lp, ast.For) and isinstance(lp.iter, ast.Call) and isinstance(lp.iter.func, ast.Name) and lp.iter.func.id == "enumerate" and isinstance(lp.target, ast.Tuple)
+                    and len(lp.target.elts) == 2 and all(isinstance(e, ast.Name) for e in lp.target.elts)):
+                continue
+            i, v = lp.target.elts[0].id, lp.target.elts[1].id
+            grown = {ast.unparse(c.func.value) for st in lp.body for c in ast.walk(st) if isinstance(c, ast.Call) and isinstance(c.func, ast.Attribute) and c.func.attr == "append"}
+            k += 1
+            bad = [s_ for s_ in ast.walk(lp) if isinstance(s_, ast.Subscript) and ast.unparse(s_.value) in grown and v in {x.id for x in ast.walk(s_.slice) if isinstance(x, ast.Name)}]
+            r.check(not bad, "%s:%s#enumerate%d" % (rel, getattr(_owner_func(lp), "name", "<module>"), k), m.where(bad[0] if bad else lp), "in %s the loop `for %s, %s in %s` subscripts the list it grows with the enumerated value: `%s`" % (
+                rel, i, v, ast.unparse(lp.iter)[:40], ast.unparse(bad[0]) if bad else ""), detail="grown lists are indexed by position")
+    return r.done()
+
+
+def rule_py_form_parameters(rep, floor=10):
+    r = rep.rule("META.py-form-parameters", "every layout node that from_buffers rebuilds from a Form (each `return <constructor>(...)` of _form_to_layout under an isinstance(form, ...) arm) is given the identities and the parameters read from that Form: "
+                 "a constructor that omits them drops __record__/__array__ and every user parameter of that node on the round trip", floor=floor)
+    m = pf.module("operations/convert.py")
+    fd = m.funcs.get("_form_to_layout")
+    if fd is None:
+        raise AnalysisError("operations/convert.py: _form_to_layout not found")
+    k = 0
+    for r_ in ast.walk(fd):
+        if not (isinstance(r_, ast.Return) and isinstance(r_.value, ast.Call) and _owner_func(r_) is fd):
+            continue
+        if not any(inb and "isinstance(form" in ast.unparse(t) for t, inb in pf.enclosing_tests(r_)):
+            continue
+        k += 1
+        names = {n.id for n in ast.walk(r_.value) if isinstance(n, ast.Name)}
+        missing = [x for x in ("identities", "parameters") if x not in names]
+        r.check(not missing, "_form_to_layout#return%d:%s" % (k, ast.unparse(r_.value.func)[:40]), m.where(r_), "_form_to_layout returns `%s(...)` without %s" % (ast.unparse(r_.value.func)[:50], missing), detail="identities and parameters passed")
+    return r.done()
+
+
+def rule_py_scatter_size(rep, floor=50):
+    r = rep.rule("BOUND.py-scatter-size", "a NumPy buffer that is written through an index array (`B[I] = ...`) is not allocated with a size computed from len(I): I holds positions, whose values are bounded by the length of what they point into, "
+                 "not by how many of them there are (tabled: boolean masks, where len(I) is the right size)", floor=floor)
+    table = load_table("py_scatter_exceptions.json")
+    for rel in [x for x in pf.all_modules() if "generated_parser" not in x]:
+        m = pf.module(rel)
+        k = 0
+        for s_ in ast.walk(m.tree):
+            if not isinstance(s_, ast.Assign):
+                continue
+            fd = _owner_func(s_)
+            if not isinstance(fd, ast.FunctionDef):
+                continue
+            for t in s_.targets:
+                if not (isinstance(t, ast.Subscript) and isinstance(t.value, ast.Name) and isinstance(t.slice, ast.Name)):
+                    continue
+                B, I = t.value.id, t.slice.id
+                def other_arm(a_):
+                    for p_ in pf.parent_chain(s_):
+                        if isinstance(p_, ast.If):
+                            inb = any(s_ is x for b_ in p_.body for x in ast.walk(b_))
+                            mine, theirs = (p_.body, p_.orelse) if inb else (p_.orelse, p_.body)
+                            if any(a_ is x for o in theirs for x in ast.walk(o)):
+                                return True
+                    return False
+                defs = {}
+                for a_ in ast.walk(fd):
+                    if isinstance(a_, ast.Assign) and len(a_.targets) == 1 and isinstance(a_.targets[0], ast.Name) and not other_arm(a_):
+                        defs.setdefault(a_.targets[0].id, []).append(a_.value)
+
+                def mentions_len(e, depth=0):
+                    for x in ast.walk(e):
+                        if isinstance(x, ast.Call) and isinstance(x.func, ast.Name) and x.func.id == "len" and x.args and ast.unparse(x.args[0]) == I:
+                            return True
+                        if isinstance(x, ast.Name) and depth < 2 and x.id in defs and x.id != I and any(mentions_len(v, depth + 1) for v in defs[x.id]):
+                            return True
+                    return False
+                allocs = [v for v in defs.get(B, []) if isinstance(v, ast.Call) and isinstance(v.func, ast.Attribute) and v.func.attr in ("zeros", "empty", "ones", "full") and v.args]
+                if not allocs:
+                    continue
+                k += 1
+                bad = [a_ for a_ in allocs if mentions_len(a_.args[0])]
+                key = "%s:%s:%s[%s]" % (rel, fd.name, B, I)
+                if bad and key in table:
+                    r.excepted(key, table[key])
+                    r.ok(key)
+                    continue
+                r.check(not bad, "%s#%d" % (key, k), m.where(s_), "%s in %s writes `%s` but allocates %s as `%s`: the positions in %s are bounded by the content they index, not by len(%s)" % (
+                    fd.name, rel, ast.unparse(s_)[:50], B, ast.unparse(bad[0])[:50] if bad else "", I, I), detail="target not sized by the number of indices")
+    return r.done()
+
+
+def rule_py_arrow_option_wrap(rep, floor=4):
+    r = rep.rule("WRAP.py-arrow-option", "every return of _from_arrow.popbuffers hands back an option-type wrapper (BitMaskedArray / UnmaskedArray, possibly simplified or sliced) - its callers strip one level with `.content` when the Arrow field is not nullable, "
+                 "so an arm that returns its bare result loses that result's own top node (the index of a dictionary)", floor=floor)
+    m = pf.module("operations/convert.py")
+    fd = m.funcs.get("_from_arrow.popbuffers") or m.funcs.get("popbuffers")
+    if fd is None:
+        cands = [f for q, f in m.funcs.items() if q.endswith("popbuffers")]
+        if not cands:
+            raise AnalysisError("operations/convert.py: popbuffers not found")
+        fd = cands[0]
+    wrapped = set()
+    k = 0
+    for st in fd.body:   # top-level tail: `out = BitMaskedArray(...)` / `out = UnmaskedArray(out)` make `out` a wrapper from here on
+        for a_ in ast.walk(st):
+            if isinstance(a_, ast.Assign) and len(a_.targets) == 1 and isinstance(a_.targets[0], ast.Name) and isinstance(a_.value, ast.Call) and (pf.dotted(a_.value.func) or "").endswith(("BitMaskedArray", "UnmaskedArray", "ByteMaskedArray")) and st is not a_ and isinstance(st, ast.If) and st in fd.body:
+                wrapped.add((a_.targets[0].id, fd.body.index(st)))
+    for r_ in ast.walk(fd):
+        if not (isinstance(r_, ast.Return) and r_.value is not None and _owner_func(r_) is fd):
+            continue
+        k += 1
+        v = r_.value
+        while isinstance(v, ast.Subscript) or (isinstance(v, ast.Call) and isinstance(v.func, ast.Attribute) and v.func.attr == "simplify"):
+            v = v.value if isinstance(v, ast.Subscript) else v.func.value
+        ok = isinstance(v, ast.Call) and (pf.dotted(v.func) or "").endswith(("BitMaskedArray", "UnmaskedArray", "ByteMaskedArray"))
+        if not ok and isinstance(v, ast.Name):
+            # a top-level return after the wrapping block
+            top = [i for i, st in enumerate(fd.body) if any(r_ is x for x in ast.walk(st))]
+            ok = bool(top) and any(nm == v.id and i < top[0] for nm, i in wrapped)
+        if not ok and isinstance(v, ast.Call) and isinstance(v.func, ast.Name) and v.func.id == "popbuffers":
+            ok = True    # the recursive result is already wrapped
+        r.check(ok, "popbuffers#return%d" % k, m.where(r_), "popbuffers returns `%s`, which is not an option-type wrapper: a caller for a non-nullable field strips `.content` and loses this node" % ast.unparse(r_.value)[:60], detail="returns an option-type wrapper")
+    return r.done()
+
+
+def rule_py_filtered_concatenate(rep, floor=2):
+    r = rep.rule("SENTINEL.py-filtered-concatenate", "a list built by a filtering comprehension (`[f(x) for x in xs if len(x) > 0]`) is only handed to concatenate / stack after a test of its length: "
+                 "when every item is filtered out, concatenating nothing raises instead of giving the empty result of the right type", floor=floor)
+    for rel in [x for x in pf.all_modules() if "generated_parser" not in x]:
+        m = pf.module(rel)
+        k = 0
+        for c in ast.walk(m.tree):
+            if not (isinstance(c, ast.Call) and c.args and isinstance(c.args[0], ast.Name)):
+                continue
+            nm = c.func.attr if isinstance(c.func, ast.Attribute) else getattr(c.func, "id", "")
+            if nm not in ("concatenate", "stack", "hstack", "vstack"):
+                continue
+            fd = _owner_func(c)
+            if not isinstance(fd, ast.FunctionDef):
+                continue
+            L = c.args[0].id
+            src = [s_ for s_ in ast.walk(fd) if isinstance(s_, ast.Assign) and len(s_.targets) == 1 and isinstance(s_.targets[0], ast.Name) and s_.targets[0].id == L
+                   and isinstance(s_.value, ast.ListComp) and any(g.ifs for g in s_.value.generators) and s_.lineno < c.lineno]
+            if not src:
+                continue
+            k += 1
+            tests = [t for t in ast.walk(fd) if isinstance(t, (ast.If, ast.IfExp)) and any((pat % L) in ast.unparse(t.test) for pat in ("len(%s) == 0", "len(%s) > 0", "len(%s) != 0", "len(%s) >= 1", "len(%s) < 1", "not %s")) and src[-1].lineno < t.lineno <= c.lineno]
+            r.check(bool(tests), "%s:%s:%s(%s)#%d" % (rel, fd.name, nm, L, k), m.where(c), "%s in %s passes the filtered list %s (`%s`) to %s without testing len(%s): if every item is filtered out there is nothing to concatenate" % (
+                fd.name, rel, L, ast.unparse(src[-1].value)[:50], nm, L), detail="len(%s) tested first" % L)
     return r.done()
